@@ -338,7 +338,7 @@ MANIFEST = {
 
 
 def run(ctx):
-    ctx.search("history", cases(), quick=1300, thorough=5000)
+    ctx.search("history", cases(), quick=1300, thorough=4000)
 
 
 MUTANTS = [
